@@ -50,6 +50,7 @@ type FuncD struct {
 type Prog struct {
 	Prelude string  `json:"prelude"`
 	Funcs   []FuncD `json:"funcs"`
+	Globals []St    `json:"globals"` // package-level declarations in presentation order (family pkginit)
 	Body    []St    `json:"body"`
 }
 
@@ -259,7 +260,12 @@ func (r *renderer) stmt(s St, ind string, one bool) string {
 	switch s.K {
 	case "decl":
 		return strings.Join(s.X, ", ") + " := " + r.exprs(s.E)
+	case "tfunc": // top-level function declaration
+		return "func " + s.X[0] + sigText(s.Sig) + " " + r.block(s.B[0], ind, false)
 	case "var":
+		if s.N == 1 && s.S == "" {
+			return "var " + s.X[0] + " = " + r.expr(s.E[0])
+		}
 		if s.N == 1 {
 			return "var " + s.X[0] + " " + s.S + " = " + r.expr(s.E[0])
 		}
@@ -475,6 +481,9 @@ func (r *renderer) prelude(p Prog) string {
 	}
 	for _, f := range p.Funcs {
 		b.WriteString(r.funcDecl(f) + "\n")
+	}
+	for _, d := range p.Globals {
+		b.WriteString(r.stmt(d, "", false) + "\n\n")
 	}
 	return b.String()
 }
